@@ -25,6 +25,8 @@ const MAXT: usize = hooks::MAX_THREADS;
 const RUNNING: u32 = 0;
 const PARKED: u32 = 1;
 const DONE: u32 = 2;
+/// a plain thread inside the direct blocking recv(): not a task, cannot publish its own state
+const BLOCKING_DIRECT: u32 = 3;
 
 #[derive(Clone, Copy, Debug, PartialEq)]
 pub enum StreamMode {
@@ -36,6 +38,8 @@ pub enum StreamMode {
     PollDrop(u32),
     /// direct try_recv k values, then drop the receiver
     DirectDrop(u32),
+    /// a plain thread sitting in the direct *blocking* recv() until the end of the stream
+    DirectRecv,
 }
 
 #[derive(Clone, Debug)]
@@ -83,6 +87,8 @@ struct Shared {
     threads_done: AtomicU32,
     progress_ops: AtomicU64,
     is_task: Vec<AtomicBool>,
+    /// verdicts of probe polls, recorded by the supervisor only after it has re-validated quiescence
+    pending: std::sync::Mutex<Vec<(&'static str, String, String)>>,
 }
 
 pub fn gen_cfg(rng: &mut Rng, small: bool) -> FutCfg {
@@ -116,7 +122,7 @@ pub fn gen_cfg(rng: &mut Rng, small: bool) -> FutCfg {
                 3 | 4 => StreamMode::Direct,
                 5 => StreamMode::PollDrop(1 + rng.below(3) as u32),
                 6 => StreamMode::DirectDrop(1 + rng.below(3) as u32),
-                _ => StreamMode::Poll,
+                _ => StreamMode::DirectRecv,
             };
             cs.push((mode, k == 1 && rng.chance(1, 3)));
         }
@@ -237,22 +243,22 @@ fn probe_answer(sh: &Shared, tid: usize, progress: bool, what: &str, kind: &str,
             .streams
             .iter()
             .any(|s| s.iter().any(|c| matches!(c.0, StreamMode::PollDrop(_) | StreamMode::DirectDrop(_))));
-        violation(
-            if what == "Err(SendError)" {
-                "C14,C13"
-            } else if kind == "sink" && has_leaver {
-                // a receiver left during this scenario: a send refused only because of it must be retried
-                "C14,C11"
-            } else {
-                "C14"
-            },
-            "parked-unnotified",
+        let prop = if what == "Err(SendError)" {
+            "C14,C13"
+        } else if kind == "sink" && has_leaver {
+            // a receiver left during this scenario: a send refused only because of it must be retried
+            "C14,C11"
+        } else {
+            "C14"
+        };
+        sh.pending.lock().unwrap().push((
+            prop,
             format!("parked-unnotified:{}:{}", kind, ctx),
             format!(
-                "at global quiescence (every thread finished or parked, no notification pending) the parked {} task T{} had not been notified, yet a probe poll returned {}: it could make progress and nobody was going to wake it ({})",
+                "at global quiescence (every thread finished, parked, or blocked inside a direct recv() with nothing to receive; no notification pending) the parked {} task T{} had not been notified, yet a probe poll returned {}: it could make progress and nobody was going to wake it ({})",
                 kind, tid, what, ctx
             ),
-        );
+        ));
         sh.probe[tid].store(3, SeqCst);
     } else {
         sh.probe[tid].store(2, SeqCst);
@@ -324,6 +330,21 @@ fn sink_thread(mut tx: TxH, values: u32, drop_at_end: bool, pidx: u32, sh: &Shar
 }
 
 fn stream_thread(mut rx: RxH, mode: StreamMode, sh: &Shared, tid: usize, cfg: &FutCfg, n: u64) {
+    if mode == StreamMode::DirectRecv {
+        sh.state[tid].store(BLOCKING_DIRECT, SeqCst);
+        loop {
+            match rx.recv_kind(RecvKind::Recv) {
+                RecvOut::Val(_) => {
+                    sh.progress_ops.fetch_add(1, SeqCst);
+                }
+                _ => break,
+            }
+        }
+        sh.state[tid].store(RUNNING, SeqCst);
+        rx.drop_rx();
+        sh.state[tid].store(DONE, SeqCst);
+        return;
+    }
     let mut got = 0u32;
     let quota = match mode {
         StreamMode::PollDrop(k) | StreamMode::DirectDrop(k) => Some(k),
@@ -471,6 +492,7 @@ pub fn run_once(cfg: &FutCfg, shard: &mut Shard) -> (u64, bool, bool) {
         threads_done: AtomicU32::new(0),
         progress_ops: AtomicU64::new(0),
         is_task: (0..MAXT).map(|_| AtomicBool::new(false)).collect(),
+        pending: std::sync::Mutex::new(Vec::new()),
     });
     let mut joins = Vec::new();
     let mut tid = 1usize;
@@ -511,7 +533,7 @@ pub fn run_once(cfg: &FutCfg, shard: &mut Shard) -> (u64, bool, bool) {
         let my = tid;
         notes[my] = Some(rx.note.clone());
         shared.state[my].store(RUNNING, SeqCst);
-        shared.is_task[my].store(!matches!(mode, StreamMode::Direct | StreamMode::DirectDrop(_)), SeqCst);
+        shared.is_task[my].store(!matches!(mode, StreamMode::Direct | StreamMode::DirectDrop(_) | StreamMode::DirectRecv), SeqCst);
         joins.push(
             std::thread::Builder::new()
                 .name(format!("fut-stream{}", my))
@@ -551,13 +573,20 @@ pub fn run_once(cfg: &FutCfg, shard: &mut Shard) -> (u64, bool, bool) {
             std::thread::sleep(Duration::from_micros(100));
         }
         // (state, count the parked task waits to see change, the counter itself read directly)
-        let snap = |sh: &Shared| -> Vec<(u32, u32, u32)> {
+        let snap = |sh: &Shared| -> Vec<(u32, u32, u32, u64, u32)> {
             (1..=nthreads)
                 .map(|t| {
                     let st = sh.state[t].load(SeqCst);
                     let seen = sh.seen[t].load(SeqCst);
                     let now = notes[t].as_ref().map(|n| n.count.load(SeqCst)).unwrap_or(0);
-                    (st, seen, now)
+                    // a thread inside the direct blocking recv(): idle iff it sits in its wait (last hook
+                    // site passed = just before the wait) and passes no further site
+                    let (sites, last) = if st == BLOCKING_DIRECT {
+                        (hooks::T_SITES[t].load(SeqCst), hooks::T_LAST[t].load(SeqCst))
+                    } else {
+                        (0, 0)
+                    };
+                    (st, seen, now, sites, last)
                 })
                 .collect()
         };
@@ -567,6 +596,23 @@ pub fn run_once(cfg: &FutCfg, shard: &mut Shard) -> (u64, bool, bool) {
         }
         if s1.iter().all(|x| x.0 == DONE) {
             break;
+        }
+        if s1.iter().any(|x| x.0 == BLOCKING_DIRECT && x.4 != site::B_BEFORE_WAIT) {
+            continue;
+        }
+        if !s1.iter().any(|x| x.0 == PARKED) {
+            // only finished threads and direct-recv threads waiting for values nobody will send
+            if s1.iter().all(|x| x.0 == DONE || x.0 == BLOCKING_DIRECT) {
+                let p1 = shared.progress_ops.load(SeqCst);
+                std::thread::yield_now();
+                if !cfg!(miri) {
+                    std::thread::sleep(Duration::from_micros(300));
+                }
+                if snap(&shared) == s1 && shared.progress_ops.load(SeqCst) == p1 {
+                    break;
+                }
+            }
+            continue;
         }
         // nobody is running; parked tasks must have no pending notification
         if s1.iter().any(|x| x.0 == PARKED && x.1 != x.2) {
@@ -618,6 +664,23 @@ pub fn run_once(cfg: &FutCfg, shard: &mut Shard) -> (u64, bool, bool) {
         }
         if inconclusive.is_some() {
             break;
+        }
+        {
+            // A verdict only stands if no direct-recv thread moved since the quiescent snapshot (it
+            // could have consumed a value and be about to notify): compare their site counters.
+            let now = snap(&shared);
+            let moved = s2
+                .iter()
+                .zip(now.iter())
+                .any(|(a, b)| a.0 == BLOCKING_DIRECT && (b.0 != BLOCKING_DIRECT || a.3 != b.3));
+            let pend: Vec<_> = shared.pending.lock().unwrap().drain(..).collect();
+            if moved {
+                shard.stat("probe_verdicts_discarded_because_a_direct_recv_thread_moved", pend.len() as u64);
+            } else {
+                for (prop, sig, detail) in pend {
+                    violation(prop, "parked-unnotified", sig, detail);
+                }
+            }
         }
         if !progressed {
             // every parked task answered NotReady: nothing can make progress; the scenario is over
